@@ -731,8 +731,20 @@ class TokenizerCore:
         else:
             self._col += i
 
-        self._current += i
         sql = self.sql
+
+        if i > 1:
+            # The characters that are stepped over never become `_char`, so their line breaks are
+            # counted here (e.g. ORDER\nBY scanned as one keyword, or an escaped line break in a string)
+            skipped = sql[self._current : self._current + i - 1]
+            if "\n" in skipped or "\r" in skipped:
+                breaks = skipped.count("\n") + skipped.count("\r") - skipped.count("\r\n")
+                if skipped[-1] == "\r" and sql[self._current + i - 1 : self._current + i] == "\n":
+                    breaks -= 1  # counted when the \n is left
+                self._line += breaks
+                self._col = i - 1 - max(skipped.rfind("\n"), skipped.rfind("\r"))
+
+        self._current += i
         size = self.size
         self._end = self._current >= size
         self._char = sql[self._current - 1]
